@@ -404,3 +404,89 @@ Proof.
     + destruct H0 as [-> ->]. unfold inv_token. simpl. auto.
     + destruct H0 as [-> ->]. unfold inv_token. simpl. auto.
 Qed.
+
+(* ------------------------------------------------------------------ *)
+(* D. Write transactions: a transaction is open exactly while it is
+   installed in e.txn; identifiers are never reused.                   *)
+
+Definition txn_status (g : globals) (x : txid) : option tstatus :=
+  option_map t_status (nth_error (txns g) x).
+
+Definition txn_ok (g : globals) : Prop :=
+  (forall x, etxn g = Some x -> txn_status g x = Some TOpen) /\
+  (forall x, txn_status g x = Some TOpen -> etxn g = Some x).
+
+Lemma nth_error_app_new : forall A (l : list A) a x,
+  nth_error (l ++ [a]) x =
+  if Nat.ltb x (List.length l) then nth_error l x else if Nat.eqb x (List.length l) then Some a else None.
+Proof.
+  induction l; simpl; intros.
+  - destruct x; simpl; auto. destruct x; auto.
+  - destruct x; simpl; auto. rewrite IHl. reflexivity.
+Qed.
+
+Lemma nth_error_ge_none : forall A (l : list A) x, List.length l <= x -> nth_error l x = None.
+Proof. intros. apply nth_error_None. auto. Qed.
+
+Lemma status_lt : forall (l : list txn) x s, option_map t_status (nth_error l x) = Some s -> x < List.length l.
+Proof. intros. apply nth_error_Some. destruct (nth_error l x); simpl in *; congruence. Qed.
+Lemma tstep_txn : forall c t bgs g th a g' th',
+  tstep c t bgs g th a = Some (g', th') ->
+  txn_ok g -> (transit (th_pc th) = true -> etxn g = None) ->
+  txn_ok g'.
+Proof.
+  intros c t bgs g th a g' th' H [D1 D2] TR. unfold txn_ok, txn_status in *.
+  destruct th as [p prog cur canc bg inv pub rd res str]. simpl in TR.
+  destruct a; [destruct p|destruct p|destruct p|destruct p]; step_cases H; simp; simpl in TR.
+  all: try solve [split; assumption].
+  all: try (rewrite TR in * by reflexivity).
+  all: unfold is_txn in *.
+  all: repeat match goal with E : etxn _ = _ |- _ => rewrite E in * end.
+  all: split; intros y; rewrite ?nth_upd_match, ?nth_error_app_new; eqb_cases;
+    repeat match goal with |- context [Nat.ltb ?a ?b] => destruct (Nat.ltb_spec a b) end.
+  all: simpl; intros HY; try congruence; try discriminate; eauto.
+  all: try solve [destruct (nth_error (txns g) _); simpl in *; congruence].
+  all: try solve [apply status_lt in HY; lia].
+  all: try solve [apply D1 in HY; apply status_lt in HY; lia].
+  all: try solve [exfalso; lia].
+  all: try solve [apply D1 in HY; destruct (nth_error (txns g) y); simpl in *; congruence].
+  all: try solve [apply D2; destruct (nth_error (txns g) y); simpl in *; congruence].
+  all: try solve [assert (etxn g = Some y) by (apply D2; destruct (nth_error (txns g) y); simpl in *; congruence); congruence].
+  all: try solve [apply D2 in HY; try rewrite HY in *; simpl in *; try discriminate; inversion HY; subst;
+                  repeat match goal with E : Nat.eqb _ _ = true |- _ => apply Nat.eqb_eq in E end;
+                  repeat match goal with E : negb (Nat.eqb _ _) = false |- _ => apply negb_false_iff in E; apply Nat.eqb_eq in E end;
+                  congruence].
+Qed.
+
+Lemma transit_etxn_none : forall s t th,
+  inv_token s -> nth_error (st_threads s) t = Some th -> transit (th_pc th) = true ->
+  etxn (st_g s) = None /\ token_free (st_g s) = false.
+Proof.
+  intros s t th [_ EQ] N TR. pose proof (count_pos _ thr_transit _ _ _ N TR).
+  destruct (etxn (st_g s)); destruct (token_free (st_g s)); simpl in *; split; auto; lia.
+Qed.
+
+Lemma txn_ok_frame : forall g g', etxn g' = etxn g -> txns g' = txns g -> txn_ok g -> txn_ok g'.
+Proof. unfold txn_ok, txn_status. intros g g' E T. rewrite E, T. auto. Qed.
+
+Theorem txn_invariant : forall c s, reachable c s -> txn_ok (st_g s).
+Proof.
+  induction 1.
+  - unfold txn_ok, txn_status. simpl. split; intros; try discriminate. destruct x; discriminate.
+  - pose proof (token_invariant _ _ H) as TI.
+    apply step_inv in H0. destruct H0 as [H0|[H0|[H0|H0]]].
+    + destruct H0 as (t & a & th & g' & th' & -> & N & T & ->). simpl.
+      eapply txn_ok_frame with (g := g'); auto.
+      eapply tstep_txn; eauto. intros TR. eapply transit_etxn_none; eauto.
+    + destruct H0 as (t & th & -> & N & ->). simpl. eapply txn_ok_frame; eauto.
+    + destruct H0 as [-> ->]. simpl. eapply txn_ok_frame; eauto.
+    + destruct H0 as [-> ->]. simpl. eapply txn_ok_frame; eauto.
+Qed.
+
+(* at most one write transaction is open at any time *)
+Theorem single_writer_txn : forall c s x y,
+  reachable c s -> txn_status (st_g s) x = Some TOpen -> txn_status (st_g s) y = Some TOpen -> x = y.
+Proof.
+  intros c s x y R X Y. destruct (txn_invariant _ _ R) as [_ D2].
+  apply D2 in X. apply D2 in Y. congruence.
+Qed.
